@@ -199,6 +199,9 @@ var bfContainer = container{
 		case k < 27: // large filters: filled in order first, then a random history around the eviction point
 			size = hx.Pick(rng, []int{16, 33, 64, 100})
 			universe = size + 4
+		case k < 28: // beyond one byte
+			size = hx.Pick(rng, []int{255, 256, 300})
+			universe = size + 4
 		}
 		ops = append(ops, fmt.Sprintf("bf new %d", size))
 		if size >= 16 {
